@@ -36,7 +36,10 @@ type Check struct {
 	Scenarios   func(tier string) []Scenario
 	Budget      map[string]time.Duration // wall-clock budget per tier (internal deadline)
 	Workers     int                      // 0 = NumCPU
-	NoIsolation bool                     // run scenarios in the master process (no crash isolation)
+	// Post runs an auxiliary leg in the master after the scenarios (the free-running race pass);
+	// its violations are not replayed (a race report is a fact of the run that produced it).
+	Post        func(tier string, seed int64) (vs []VRec, extra map[string]int, engineErrs []string)
+	NoIsolation bool // run scenarios in the master process (no crash isolation)
 }
 
 // VRec is a violation as reported by a worker.
@@ -89,7 +92,13 @@ type W struct {
 
 // SetCase tags the violations of the following explorations with a case string (kept in the
 // replay file and available through Replaying().Case).
-func (w *W) SetCase(s string) { w.caseTag = s }
+func (w *W) SetCase(s string) {
+	w.caseTag = s
+	if w.replay == nil {
+		fmt.Fprintf(w.out, "@@C %d %s\n", w.idx, strings.ReplaceAll(s, "\n", " "))
+		w.out.Flush()
+	}
+}
 
 const maxSameSig = 3
 
@@ -582,6 +591,7 @@ func runAll(c Check, tier string, seed int64, n int, deadline time.Time, only ma
 				sk, _ := json.Marshal(j.skips)
 				_, _ = fmt.Fprintf(p.in, "S %d %s\n", j.idx, sk)
 				lastR := ""
+				lastC := ""
 				finished := false
 				watch := time.NewTimer(10 * time.Minute)
 			loop:
@@ -603,6 +613,8 @@ func runAll(c Check, tier string, seed int64, n int, deadline time.Time, only ma
 						switch tag {
 						case "R":
 							lastR = payload
+						case "C":
+							lastC = payload
 						case "V":
 							var v VRec
 							_ = json.Unmarshal([]byte(payload), &v)
@@ -655,7 +667,7 @@ func runAll(c Check, tier string, seed int64, n int, deadline time.Time, only ma
 				}
 				name := "#" + strconv.Itoa(j.idx)
 				mu.Lock()
-				res.violations = append(res.violations, VRec{Sig: sig, Detail: detail, Scenario: name, Choices: ch, Crash: true, Case: "idx=" + strconv.Itoa(j.idx)})
+				res.violations = append(res.violations, VRec{Sig: sig, Detail: detail, Scenario: name, Choices: ch, Crash: true, Case: lastC})
 				mu.Unlock()
 				j.crashes++
 				j.skips = append(j.skips, lastR)
@@ -781,6 +793,17 @@ func Main(t *testing.T, c Check) {
 		}
 	}
 	res := runAll(c, tier, seed, len(scs), deadline, only)
+	postExtra := map[string]int{}
+	noConfirm := map[string]bool{}
+	if c.Post != nil && only == nil {
+		vs, ex, ee := c.Post(tier, seed)
+		for _, v := range vs {
+			noConfirm[v.Sig] = true
+		}
+		res.violations = append(res.violations, vs...)
+		res.engineErrs = append(res.engineErrs, ee...)
+		postExtra = ex
+	}
 
 	// fix up crash scenario names
 	for i := range res.violations {
@@ -824,7 +847,7 @@ func Main(t *testing.T, c Check) {
 		v := vs[0]
 		reproduced := 0
 		const reruns = 3
-		if !c.NoIsolation {
+		if !c.NoIsolation && !noConfirm[sig] {
 			for r := 0; r < reruns; r++ {
 				sigs, eng := replayOnce(tier, seed, names[v.Scenario], v)
 				if eng != "" {
@@ -861,6 +884,9 @@ func Main(t *testing.T, c Check) {
 	cov := map[string]interface{}{}
 	var execs, cases, states, trans, maxd, outcomes, nontriv, capped, abandoned, skipped int
 	extra := map[string]int{}
+	for k, v := range postExtra {
+		extra[k] += v
+	}
 	var samples []interface{}
 	sort.Slice(res.srecs, func(i, j int) bool { return res.srecs[i].Name < res.srecs[j].Name })
 	for i, s := range res.srecs {
